@@ -63,9 +63,13 @@ def writeHeader (sp : Spec) (s : St) (cl : Bool) : St :=
     else s
   { s with hdr := sp.hdr s.frames s.filelength s.datalength }
 
-/-- `<x>_open` (SFM_WRITE); `stale` = the frames value the caller left in SF_INFO -/
+/-- `<x>_open` (SFM_WRITE); `stale` = the frames value the caller left in SF_INFO.  It reaches the first header; the
+    codec init that follows (pcm_init, ulaw_init, alaw_init, float32_init, paf24_init) then recomputes
+    `datalength = 0` and `sf.frames = 0` from the still empty file, so the header re-emitted before the first audio
+    byte no longer holds it. -/
 def openW (sp : Spec) (stale : Nat) : St :=
-  writeHeader sp { frames := if sp.zeroFrames then 0 else stale } false
+  let s := writeHeader sp { frames := if sp.zeroFrames then 0 else stale } false
+  { s with frames := 0, datalength := 0 }
 
 /-- one `sf_write_*` call storing `enc` (whole frames of encoded audio); `auto` = SFC_SET_UPDATE_HEADER_AUTO is on -/
 def write (sp : Spec) (s : St) (enc : List Byte) (auto : Bool) : St :=
